@@ -187,4 +187,41 @@ theorem sendBundle_kept_any (env : Env) (b : Bundle) (n : Node) (hfix : n.cfg.ho
   · exact Or.inl h
   · exact Or.inr (Holds.of_kept h b2 e2)
 
+/-! ## The persistent record while the transmissions of one `forward` are in progress -/
+
+/-- The state at the moment the transmissions of one `forward` start: after the first `Sync`
+(`ForwardPending` set, `DispatchPending` cleared) and the choice of the senders. -/
+def forwardMid (env : Env) (d : Desc) (b : Bundle) (n : Node) : Node :=
+  (selectSenders env { d with cons := { d.cons with fp := true, dp := false } } b
+    (sync { d with cons := { d.cons with fp := true, dp := false } } n)).2.2.2
+
+/-- The descriptor the per-peer goroutines work with. -/
+def forwardMidDesc (env : Env) (d : Desc) (b : Bundle) (n : Node) : Desc :=
+  (selectSenders env { d with cons := { d.cons with fp := true, dp := false } } b
+    (sync { d with cons := { d.cons with fp := true, dp := false } } n)).2.2.1
+
+/-- **Marked for retry while a transmission is in progress**: when `forward` starts to transmit a stored
+bundle (not held for reassembly), the stored record is marked pending — and it stays so whichever of the
+per-peer goroutines (`Send`; on failure `ReportFailure`) have run so far, in whatever order: `ps` is an
+arbitrary list of peers. A process that dies inside a `Send` finds the bundle pending at its next start. -/
+theorem pending_while_sending (env : Env) (d : Desc) (b : Bundle) (n : Node) (it : Item)
+    (hg : n.store.get d.key = some it) (hrp : d.cons.rp = false) (ps : List Peer) :
+    ∃ it', (sendAll env (forwardMidDesc env d b n) b ps (forwardMid env d b n)).1.store.get d.key = some it' ∧
+      it'.pending = true ∧ it'.bundle = it.bundle ∧ it'.expires = it.expires := by
+  unfold forwardMid forwardMidDesc
+  generalize hD : ({ d with cons := { d.cons with fp := true, dp := false } } : Desc) = D
+  have hDk : D.key = d.key := by rw [← hD]
+  have hne : D.cons.isEmpty = false := by rw [← hD]; simp [Cons.isEmpty]
+  have hpr : D.cons.pendingRule = true := by rw [← hD]; simp [Cons.pendingRule, hrp]
+  have h1 := sync_update D n it (by rw [hDk]; exact hg) hne
+  have h2 := selectSenders_rt env D b (sync D n)
+  rcases h2.item _ h1 with ⟨it2, g2, b2, e2, _, _, p2⟩
+  have hdesc : (selectSenders env D b (sync D n)).2.2.1.key = D.key := (selectSenders_desc env D b (sync D n)).1
+  have h3 := sendAll_rt env (selectSenders env D b (sync D n)).2.2.1 b ps (selectSenders env D b (sync D n)).2.2.2
+  rw [hdesc] at h3
+  rcases h3.item _ g2 with ⟨it3, g3, b3, e3, _, _, p3⟩
+  refine ⟨it3, by rw [← hDk]; exact g3, p3 (p2 hpr), ?_, ?_⟩
+  · rw [b3, b2]
+  · rw [e3, e2]
+
 end Dtn7.Node
